@@ -16,7 +16,7 @@ import (
 )
 
 type SolveResult struct {
-	Retried   bool // the first attempt timed out and the obligation was solved again alone with a larger budget
+	Retried   bool   // the first attempt timed out and the obligation was solved again alone with a larger budget
 	Status    string // "unsat" (discharged), "sat", "unknown", "timeout", "error"
 	Backend   string
 	Seconds   float64
